@@ -511,6 +511,88 @@ Proof.
     exists (ls1 ++ ls2). split; [by eapply sax_steps_app|]. by rewrite Hl2, Hl1, app_assoc.
 Qed.
 
+(* ------------------------------------------------------------------ the initial configuration *)
+Lemma sax_steps_perm F str C0 C ls C' : C0 ≡ₚ C -> sax_steps F str C ls C' -> sax_steps F str C0 ls C'.
+Proof.
+  intros Hp H. destruct H as [C C' Hperm|C ls C1 ls' C2 (L & R & Δ & HC & HC' & Hr) Hrest].
+  - apply sax_refl. by rewrite Hp.
+  - eapply sax_trans; [|exact Hrest]. exists L, R, Δ. split_and!; try done. by rewrite Hp.
+Qed.
+
+Lemma fold_left_insert_to_list {B} (f : gmap pid proc -> B -> gmap pid proc) (key : B -> pid) (val : B -> proc) :
+  (forall m x, f m x = <[key x := val x]> m) ->
+  forall L m0, NoDup (map key L) -> (forall x, In x L -> m0 !! key x = None) ->
+  map_to_list (fold_left f L m0) ≡ₚ map (fun x => (key x, val x)) L ++ map_to_list m0.
+Proof.
+  intros Hf. induction L as [|a L IH]; intros m0 Hnd Hfresh; cbn; [done|].
+  cbn in Hnd. apply NoDup_cons_iff in Hnd as [Hna Hnd].
+  rewrite IH; [|done|].
+  - rewrite Hf, map_to_list_insert by (apply Hfresh; by left). by rewrite Permutation_middle.
+  - intros x Hx. rewrite Hf. rewrite lookup_insert_ne; [apply Hfresh; by right|].
+    intros Heq. apply Hna. rewrite Heq. by apply in_map.
+Qed.
+
+Lemma chans_objs_empty cm : (forall k st, cm !! k = Some st -> ch_buf st = None) -> chans_objs cm = [].
+Proof.
+  intros H. unfold chans_objs.
+  assert (forall l : list (cid * chan_st), (forall x, In x l -> ch_buf (snd x) = None) ->
+            flat_map (fun x => chan_obj (fst x) (snd x)) l = []) as Hl.
+  { induction l as [|x l IH]; intros Hx; cbn; [done|]. rewrite IH by (intros; apply Hx; by right).
+    unfold chan_obj. by rewrite (Hx x (or_introl eq_refl)). }
+  apply Hl. intros [k st] Hin. apply elem_of_list_In, elem_of_map_to_list in Hin. by eapply H.
+Qed.
+
+Lemma map_fst_imap_pair {A} (l : list A) : forall k,
+  map fst (imap (fun i x => ((k + i)%nat, x)) l) = seq k (length l).
+Proof.
+  induction l as [|a l IH]; intros k; cbn; [done|]. rewrite Nat.add_0_r. f_equal.
+  rewrite <- (IH (S k)). f_equal. apply imap_ext. intros i x _. cbn. f_equal. lia.
+Qed.
+
+(* the process objects of the initial configuration, in declaration order *)
+Definition init_obj (p : program) (i : nat) (pr : procdef) : list sobj :=
+  match pr_providers pr with
+  | [_] => [obj [i; 0%nat] (close_body p (pr_body pr))]
+  | _ => []
+  end.
+
+Lemma init_objs_aux (p : program) (bodyf : procdef -> form) : forall (l : list procdef) (k : nat),
+  flat_map (fun x : nat * (procdef * list (name * name)) =>
+              proc_obj (Proc (map snd (snd (snd x))) (bodyf (fst (snd x))) (length (snd (snd x)))))
+           (imap (fun i x => ((k + i)%nat, x))
+                 (combine l (imap (fun i pr => init_provs (k + i) (pr_providers pr)) l))) =
+  concat (imap (fun i pr => match pr_providers pr with
+                            | [_] => [obj [(k + i)%nat; 0%nat] (bodyf pr)]
+                            | _ => []
+                            end) l).
+Proof.
+  induction l as [|pr l IH]; intros k; cbn; [done|]. f_equal.
+  - unfold proc_obj. cbn. destruct (pr_providers pr) as [|x [|y r]]; cbn; try done.
+  - etransitivity; [|etransitivity; [apply (IH (S k))|]].
+    + f_equal. etransitivity; [apply imap_ext|f_equal; f_equal; apply imap_ext].
+      * intros i x _. cbn. f_equal. lia.
+      * intros i x _. cbn. f_equal. lia.
+    + f_equal. apply imap_ext. intros i x _. cbn. by replace (S (k + i)) with (k + S i)%nat by lia.
+Qed.
+
+Theorem alpha_init (p : program) : α (init_config p) ≡ₚ sax_init p.
+Proof.
+  unfold α. rewrite (chans_objs_empty (chans (init_config p))), app_nil_r.
+  2:{ intros k st Hk. destruct (init_causal_inv p) as [Hb _]. specialize (Hb k).
+      unfold buf, bufm in Hb. by rewrite Hk in Hb. }
+  unfold init_config. cbn [procs]. unfold procs_objs.
+  set (inits := imap (fun i pr => init_provs i (pr_providers pr)) (p_procs p)).
+  set (bodyf := fun pr : procdef => fold_left (fun b '(old, new) => subst old new b) (concat inits) (pr_body pr)).
+  rewrite (fold_left_insert_to_list _ (fun x => [fst x])
+             (fun x => Proc (map snd (snd (snd x))) (bodyf (fst (snd x))) (length (snd (snd x))))).
+  - rewrite map_to_list_empty, app_nil_r. rewrite flat_map_concat_map, map_map, <- flat_map_concat_map. cbn [snd].
+    exact (eq_ind _ (fun x => x ≡ₚ _) (reflexivity _) _ (eq_sym (init_objs_aux p bodyf (p_procs p) 0))).
+  - by intros m [i [pr ini]].
+  - rewrite <- (map_map fst (fun i : nat => [i])). apply FinFun.Injective_map_NoDup; [by intros x y [= ->]|].
+    rewrite (map_fst_imap_pair _ 0). apply seq_NoDup.
+  - intros x _. apply lookup_empty.
+Qed.
+
 (* ---- with preservation of Inv as a hypothesis (it follows from Typed + Topo, C01) ---- *)
 Section with_preservation.
 Context (D : tenv) (F : list fundef).
@@ -523,17 +605,18 @@ Proof.
 Qed.
 
 (* every label sequence printed by a run of the model from p's initial configuration is printed by
-   an execution of the reference semantics from the abstraction of that configuration *)
+   an execution of the reference semantics from the program's own SAX initial configuration *)
 Theorem prints_admitted_partial (p : program) fuel pick :
   Inv D (init_config p) ->
-  exists C', sax_steps F false (α (init_config p))
+  exists C', sax_steps F false (sax_init p)
                (labels (res_config (exec_run fuel pick Async D F (init_config p)))) C'.
 Proof.
   intros HI. rewrite <- (exec_trace_exec_run Async D F fuel pick (init_config p) []).
   destruct (exec_trace fuel pick Async D F (init_config p) []) as [r tr] eqn:Htr. cbn [fst].
   apply exec_trace_run in Htr as (es & _ & Hrun).
   destruct (refines_sax_run D F _ _ (steps_inv_steps _ _ _ HI Hrun)) as (ls & Hs & Hl).
-  exists (α (res_config r)). by rewrite Hl.
+  exists (α (res_config r)). rewrite Hl. change (labels (init_config p)) with (@nil string). cbn.
+  eapply sax_steps_perm; [symmetry; apply alpha_init|done].
 Qed.
 End with_preservation.
 
@@ -650,6 +733,17 @@ Proof.
     + simplify_eq. split; [done|]. exists []. split; [by apply sax_refl|by rewrite app_nil_r].
 Qed.
 
+(* from the initial configuration of a program: the SAX execution starts from Sax.sax_init *)
+Corollary prints_admitted_checked_init fuel pick (p : program) r :
+  exec_checked fuel pick (p_types p) (p_funs p) (init_config p) = Some r ->
+  exec_run fuel pick Async (p_types p) (p_funs p) (init_config p) = r /\
+  sax_steps (p_funs p) false (sax_init p) (labels (res_config r)) (α (res_config r)).
+Proof.
+  intros H. destruct (prints_admitted_checked _ _ _ _ _ _ H) as (Hr & ls & Hs & Hl). split; [done|].
+  rewrite Hl. change (labels (init_config p)) with (@nil string). cbn.
+  eapply sax_steps_perm; [symmetry; apply alpha_init|done].
+Qed.
+
 (* ------------------------------------------------------------------ the full statement aimed at *)
 Fixpoint lin_form (f : form) : bool :=
   match f with
@@ -677,8 +771,7 @@ Definition linear_program (p : program) : bool :=
    provider and well-formed messages (Typed), message kind / FWD only to a provider waiting on
    itself / no receive on a closed channel (Typed + Topo), fresh identifiers at a cut (per-process
    counters: the cid analogue of Causality.pid_inv), head form in the fragment (lin_form is closed
-   under substitution and unfolding); (2) α (init_config p) ≡ₚ sax_init p (both substitute the same
-   top-level channel names; only the order of the objects differs). *)
+   under substitution and unfolding).  (α (init_config p) ≡ₚ sax_init p is proved: alpha_init.) *)
 Definition prints_admitted_stmt : Prop :=
   forall p p', TcTop.typecheck p = TcTop.Accept p' -> linear_program p' = true ->
   forall fuel pick, exists C',
